@@ -97,7 +97,10 @@ CLAIMED["C14"] = (
     "non-assignable pairs in both directions; the exit status of the run must be non-zero exactly when a file was rejected. Signatures (SignatureModel = compileFunction/compilePredicate/FallbackWith/Invoke rules): a signature is "
     "accepted iff it is not variadic, context.Context occurs only as first parameter and error only as last result (C14_supported_signatures, C14_refusal_reasons); for every accepted one the generated call's arguments and bindings are "
     "exactly the function's parameter and result lists (C14_call_matches_signature); an accepted predicate has the single bool output and no error (C14_predicate_shape); an accepted task has one FallbackWith value per output and can fail, "
-    "and Invoke(true) exactly when it has no outputs (C14_accepted_task). Tie: single-task flows over random signatures, verdict and diagnostic classes against the model, accepted outputs built.",
+    "and Invoke(true) exactly when it has no outputs (C14_accepted_task). Tie: single-task flows over random signatures, verdict and diagnostic classes against the model, accepted outputs built. "
+    "Parallel (ParSigModel = compile_parallel.go): in every accepted Parallel a task or End function takes at most the context and returns at most an error, a slice function is (ctx?, index int?, element) and a map function (ctx?, key, value) with the "
+    "collection's types assignable, at most one End hook per collection and none under ContinueOnError (C14_parallel_task_shape, C14_parallel_slice_shape, C14_parallel_map_shape, C14_parallel_accepted); tie: one Parallel per file over random function shapes, "
+    "verdict and diagnostics against the model, accepted outputs built.",
     "Trusted: Coq kernel; extraction + driver; the flow generator (its abstract program is the model's input and the Go text the tool's input); go/types identity and "
     "assignability are Go library code (types are atoms in the model, except context.Context, error, bool); assignability of FallbackWith values is not modelled.", "DESIGN.md §7 C14")
 
